@@ -34,6 +34,19 @@ def run(rep, tier, seed):
         r0 = no_compression_rule(randbits(rnd, rnd.randint(1, 16)))
         s = bits_of(r0.id) + bits_of(pd.raw)
         case_decompress(b, s, r0, None, klass='decompress:no-compression', expect=bits_of(pd.raw), side=rnd.choice([L, R]))
+    # packets whose regenerated checksums land on the corner values (0, 0xFFFF and their neighbours, where a carry is folded twice)
+    from p_c09 import special_packets
+    from schc_run import parser_for
+    from schc_util import gen_rfd, COMPUTABLE
+    from core import Buffer as _B
+    from microschc.rfc8724 import RuleDescriptor as _RD, DirectionIndicator as _DI
+    for stack, pkt in special_packets(rnd):
+        pd = parser_for(stack).parse(_B(pkt, len(pkt) * 8))
+        fds = [gen_rfd(rnd, f, 'comp' if str(getattr(f.id, 'value', f.id)) in COMPUTABLE else rnd.choice(['vs', 'ns', 'lsb']), _DI.BIDIRECTIONAL) for f in pd.fields]
+        rule = _RD(id=mk(randbits(rnd, rnd.randint(1, 8))), field_descriptors=fds)
+        s = ref_compress(n_pdesc(pd), n_rule(rule))
+        if s is not None:
+            case_decompress(b, s, rule, None, klass='decompress:checksum-corner:' + stack, expect=bits_of(pd.raw), side=rnd.choice([L, R]))
     for i in range(1500 if tier == 'quick' else 15000):
         rule, vals = synth_case(rnd)
         pl = payload_variants(rnd)
